@@ -1063,6 +1063,124 @@ def restore_pinned_annotations(tree, module):
     return tree
 
 
+def _const_truth(e):
+    """the truth value of a test built from literals only (None when it is not one)"""
+    if isinstance(e, ast.Constant):
+        return bool(e.value)
+    if isinstance(e, ast.UnaryOp) and isinstance(e.op, ast.Not):
+        v = _const_truth(e.operand)
+        return None if v is None else not v
+    if isinstance(e, ast.BoolOp):
+        vs = [_const_truth(x) for x in e.values]
+        if isinstance(e.op, ast.And):
+            for v in vs:                               # short-circuit: a literal False decides, whatever follows
+                if v is False:
+                    return False
+                if v is None:
+                    return None
+            return True
+        for v in vs:
+            if v is True:
+                return True
+            if v is None:
+                return None
+        return False
+    if isinstance(e, ast.Compare) and len(e.ops) == 1 and isinstance(e.left, ast.Constant) and isinstance(e.comparators[0], ast.Constant):
+        a, b = e.left.value, e.comparators[0].value
+        if isinstance(e.ops[0], ast.Is):
+            return (a is None and b is None) or (isinstance(a, bool) and isinstance(b, bool) and a == b) if (a is None or b is None or isinstance(a, bool)) else None
+        if isinstance(e.ops[0], ast.IsNot):
+            v = _const_truth(ast.Compare(left=e.left, ops=[ast.Is()], comparators=e.comparators))
+            return None if v is None else not v
+        if type(a) is type(b) or a is None or b is None:
+            if isinstance(e.ops[0], ast.Eq):
+                return a == b
+            if isinstance(e.ops[0], ast.NotEq):
+                return a != b
+    return None
+
+
+def fold_constant_ifs(fn):
+    """`if <literal test>:` keeps the branch that runs; likewise conditional expressions"""
+    class E(ast.NodeTransformer):
+        def visit_IfExp(self, n):
+            self.generic_visit(n)
+            v = _const_truth(n.test)
+            return n if v is None else (n.body if v else n.orelse)
+    def f(stmts):
+        out = []
+        for st in stmts:
+            if isinstance(st, ast.If):
+                v = _const_truth(st.test)
+                if v is not None:
+                    out += f(st.body if v else st.orelse)
+                    continue
+                st.body = f(st.body) or [ast.copy_location(ast.Pass(), st)]
+                st.orelse = f(st.orelse)
+            elif isinstance(st, (ast.For, ast.While, ast.With, ast.Try)):
+                for fld in ("body", "orelse", "finalbody"):
+                    if getattr(st, fld, None):
+                        setattr(st, fld, f(getattr(st, fld)))
+                for h in getattr(st, "handlers", []):
+                    h.body = f(h.body)
+            out.append(st)
+        return out
+    fn.body = [E().visit(st) for st in fn.body]
+    fn.body = f(fn.body) or [ast.Pass()]
+    return fn
+
+
+def specialise_new_parameters(tree, module):
+    """A function of the snapshot that has gained parameters — trailing positional ones or keyword-only ones, each with
+    a literal default (None, a bool, a number, a str / bytes literal), never assigned in the body — is read *at those
+    defaults*: the parameter is replaced by its default, tests that became literal are folded, and the signature is the
+    snapshot's again.  The statement proved is then about every call that does not pass the new parameters, which is
+    every call the properties speak about."""
+    path = os.path.join(_PINNED_DIR, module + ".py")
+    if not os.path.exists(path):
+        return tree
+    pinned = _defs_by_qualname(ast.parse(open(path).read()))
+    for q, fns in _defs_by_qualname(tree).items():
+        olds = pinned.get(q)
+        if not olds or len(olds) != len(fns):
+            continue
+        for fn, old in zip(fns, olds):
+            a, b = fn.args, old.args
+            if _param_names(fn) == _param_names(old) or a.vararg or a.kwarg or b.vararg or b.kwarg or a.posonlyargs or b.posonlyargs:
+                continue
+            pos, opos = [p.arg for p in a.args], [p.arg for p in b.args]
+            kwo, okwo = [p.arg for p in a.kwonlyargs], [p.arg for p in b.kwonlyargs]
+            if pos[:len(opos)] != opos or [k for k in kwo if k in okwo] != okwo:
+                continue
+            extra_pos = pos[len(opos):]
+            if len(a.defaults) < len(extra_pos):
+                continue
+            new = {}
+            for name, d in zip(extra_pos, a.defaults[len(a.defaults) - len(extra_pos):]):
+                new[name] = d
+            ok = True
+            for p_, d in zip(a.kwonlyargs, a.kw_defaults):
+                if p_.arg not in okwo:
+                    if d is None:
+                        ok = False
+                    new[p_.arg] = d
+            if not ok or not new or not all(isinstance(d, ast.Constant) and (d.value is None or isinstance(d.value, (bool, int, float, str, bytes))) for d in new.values()):
+                continue
+            stores = {n.id for st in fn.body for n in ast.walk(st) if isinstance(n, ast.Name) and isinstance(n.ctx, (ast.Store, ast.Del))}
+            nested = any(isinstance(n, (ast.Global, ast.Nonlocal)) for st in fn.body for n in ast.walk(st))
+            inner_binds = {x.arg for st in fn.body for n in ast.walk(st) if isinstance(n, (ast.FunctionDef, ast.Lambda)) for x in n.args.args + n.args.kwonlyargs}
+            if nested or (set(new) & (stores | inner_binds)):
+                continue
+            fn.body = [_Subst(new).visit(st) for st in fn.body]
+            keep_defaults = a.defaults[:len(a.defaults) - len(extra_pos)] if extra_pos else a.defaults
+            a.args = a.args[:len(opos)]
+            a.defaults = keep_defaults
+            kk = [(p_, d) for p_, d in zip(a.kwonlyargs, a.kw_defaults) if p_.arg in okwo]
+            a.kwonlyargs = [p_ for p_, _ in kk]; a.kw_defaults = [d for _, d in kk]
+            fold_constant_ifs(fn)
+    return tree
+
+
 def drop_new_methods(tree, module):
     """A method that the snapshot's class of the same name does not have cannot change what the existing methods do,
     provided it is not a special method, carries only harmless decorators, and its name is neither an existing
@@ -1219,6 +1337,7 @@ def housekeeping(tree, module):
                 return n
         tree = T().visit(tree)
     tree = drop_new_methods(tree, module)
+    tree = specialise_new_parameters(tree, module)
     tree = restore_pinned_annotations(tree, module)
     tree = local_annassign_to_assign(tree)
     # module-level names bound to harmless values that nothing (left) reads: dropped, repeatedly, so that an alias only
